@@ -65,6 +65,11 @@ fn sorted_vals(mut v: Vec<Value>) -> Vec<Value> {
 /// `definitions[name]` (registration order is observable); everything keyed by hash iteration is
 /// sorted so that the projection is a function of the abstract state.
 pub fn snapshot(db: &FixtureDatabase, full: bool) -> Value {
+    snapshot_opt(db, full, false)
+}
+
+/// `raw`: keep the vector order of usage_by_fixture entries (trace validation compares it)
+pub fn snapshot_opt(db: &FixtureDatabase, full: bool, raw: bool) -> Value {
     let mut defs = BTreeMap::new();
     for e in db.definitions.iter() {
         let v: Vec<Value> = e
@@ -96,7 +101,7 @@ pub fn snapshot(db: &FixtureDatabase, full: bool) -> Value {
                 j
             })
             .collect();
-        ubf.insert(e.key().clone(), Value::Array(sorted_vals(v)));
+        ubf.insert(e.key().clone(), Value::Array(if raw { v } else { sorted_vals(v) }));
     }
     let mut cached: Vec<String> = db
         .file_cache
@@ -352,7 +357,7 @@ pub fn exec_op(db: &FixtureDatabase, op: &Value) -> Value {
             Value::Null
         }
         "word_at" => json!(db.extract_word_at_position(s(op, "text"), u(op, "col") as usize)),
-        "snapshot" => snapshot(db, b(op, "full")),
+        "snapshot" => snapshot_opt(db, b(op, "full"), b(op, "raw")),
         "version" => json!(db.definitions_version.load(std::sync::atomic::Ordering::SeqCst)),
         other => json!({"tool_error": format!("unknown op {other}")}),
     }
